@@ -80,6 +80,18 @@ def check_valid(case, ctx):
             if st_ == "exc":
                 raise Violation("C09/valid/from_wif-raised", "from_wif(%s) [%s, k=%#x] raised %r" % (w, flav, k, back))
             expect_eq("C09/valid/from_wif-roundtrip", "from_wif(wif(%s)) for k=%#x" % (flav, k), bytes(back), k32)
+            # the same flavour asked for with 0 / 1 instead of False / True, keyword and positional
+            for how, f in (("keyword 0/1", lambda: pk.wif(compressed=int(compressed), testnet=int(testnet))),
+                           ("positional 0/1", lambda: pk.wif(int(compressed), int(testnet)))):
+                st_, w2 = call(f)
+                if st_ == "exc":
+                    ctx.count("non-bool-flag-refused (not judged)")
+                elif b58.decode_check(w2) != want_payload:
+                    raise Violation("C09/valid/wif-payload[non-bool-flags]", "wif(%s) asked with %s = %s decodes to %s, expected %s"
+                                    % (flav, how, w2, (b58.decode_check(w2) or b"").hex(), want_payload.hex()))
+            st_, sc = call(pk.K.sec, int(compressed))
+            if st_ == "ok" and sc != (sec_c if compressed else sec_u):
+                raise Violation("C09/valid/sec-non-bool-flag", "K.sec(%d) returned the other form" % int(compressed))
             # a WIF produced by other software (reference encoder) is read the same way
             st_, back = call(Prv.from_wif, b58.encode_check(want_payload))
             if st_ == "exc" or bytes(back) != k32:
